@@ -13,6 +13,9 @@ import (
 	"math"
 	"strings"
 
+	"github.com/emirpasic/gods/v2/lists/arraylist"
+	"github.com/emirpasic/gods/v2/lists/doublylinkedlist"
+	"github.com/emirpasic/gods/v2/lists/singlylinkedlist"
 	"github.com/emirpasic/gods/v2/maps"
 	"github.com/emirpasic/gods/v2/maps/treebidimap"
 	"github.com/emirpasic/gods/v2/maps/treemap"
@@ -21,6 +24,7 @@ import (
 	"github.com/emirpasic/gods/v2/trees/avltree"
 	"github.com/emirpasic/gods/v2/trees/btree"
 	rbt "github.com/emirpasic/gods/v2/trees/redblacktree"
+	"github.com/emirpasic/gods/v2/utils"
 )
 
 type Celsius float64
@@ -31,14 +35,15 @@ func isDflt(c string) bool { return strings.HasPrefix(c, "dflt") }
 // the default-constructor variants a tier runs
 func dfltVariants(quick bool) []string {
 	if quick {
-		return []string{"dflt", "dfltN", "dfltS"}
+		return []string{"dflt", "dfltN", "dfltS", "dfltTot"}
 	}
-	return []string{"dflt", "dfltN", "dflt32", "dfltS", "dfltNS", "dfltU8"}
+	return []string{"dflt", "dfltN", "dflt32", "dfltS", "dfltNS", "dfltU8", "dfltTot"}
 }
 
 type codec[K cmp.Ordered] struct {
 	vals    []K
-	outside func(code int) K // probes outside the universe: values that are never stored
+	outside func(code int) K  // probes outside the universe: values that are never stored
+	same    func(a, b K) bool // which stored value a result is (nil: ==, NaN being itself)
 }
 
 func (c *codec[K]) dec(code int) K {
@@ -49,7 +54,11 @@ func (c *codec[K]) dec(code int) K {
 }
 func (c *codec[K]) enc(k K) int {
 	for i, g := range c.vals {
-		if k == g || (k != k && g != g) {
+		if c.same != nil {
+			if c.same(k, g) {
+				return i
+			}
+		} else if k == g || (k != k && g != g) {
 			return i
 		}
 	}
@@ -65,18 +74,37 @@ func (c *codec[K]) enc(k K) int {
 }
 
 func floatCodec[F ~float32 | ~float64]() *codec[F] {
-	return &codec[F]{[]F{F(math.NaN()), -1.5, 0, 2.5, F(math.Inf(1))}, func(code int) F { return F(code) * 1000 }}
+	return &codec[F]{[]F{F(math.NaN()), -1.5, 0, 2.5, F(math.Inf(1))}, func(code int) F { return F(code) * 1000 }, nil}
 }
+
+// float keys -1, -0, +0, 1, 2 under a comparator that is FINER than Go's == : IEEE 754 totalOrder puts -0 before +0
+// (a legal strict weak order; code that short-cuts with == instead of asking the comparator goes wrong here)
+func zerosCodec() *codec[float64] {
+	return &codec[float64]{[]float64{-1, math.Copysign(0, -1), 0, 1, 2}, func(code int) float64 { return float64(code) * 1000 },
+		func(a, b float64) bool { return math.Float64bits(a) == math.Float64bits(b) }}
+}
+
+func totalOrder(a, b float64) int {
+	key := func(f float64) int64 {
+		u := int64(math.Float64bits(f))
+		if u < 0 {
+			u ^= math.MaxInt64
+		}
+		return u
+	}
+	return cmp.Compare(key(a), key(b))
+}
+
 func stringCodec[S ~string]() *codec[S] {
 	return &codec[S]{[]S{"", "A", "a", "ab", "b"}, func(code int) S {
 		if code < 0 {
 			return S("!" + itoa(-code))
 		}
 		return S("zz" + itoa(code))
-	}}
+	}, nil}
 }
 func uint8Codec() *codec[uint8] {
-	return &codec[uint8]{[]uint8{0, 1, 2, 200, 255}, func(code int) uint8 { return uint8(100 + (code+3)%90) }}
+	return &codec[uint8]{[]uint8{0, 1, 2, 200, 255}, func(code int) uint8 { return uint8(100 + (code+3)%90) }, nil}
 }
 
 type ordMap[K cmp.Ordered] struct {
@@ -147,6 +175,21 @@ func newDefaultMap(kind, variant string, m int) maps.Map[int, V] {
 		return defaultMapOf(kind, m, stringCodec[Name]())
 	case "dfltU8":
 		return defaultMapOf(kind, m, uint8Codec())
+	case "dfltTot": // not a default constructor: NewWith(totalOrder) on float keys with both zeros
+		c := zerosCodec()
+		switch kind {
+		case "treemap":
+			return ordMap[float64]{treemap.NewWith[float64, V](totalOrder), c}
+		case "redblacktree":
+			return ordMap[float64]{rbt.NewWith[float64, V](totalOrder), c}
+		case "avltree":
+			return ordMap[float64]{avltree.NewWith[float64, V](totalOrder), c}
+		case "btree":
+			return ordMap[float64]{btree.NewWith[float64, V](m, totalOrder), c}
+		case "treebidimap":
+			b := treebidimap.NewWith[float64, V](totalOrder, cmpV("nat"))
+			return ordBidi[float64]{ordMap[float64]{b, c}, b}
+		}
 	}
 	die("unknown default-constructor variant %s", variant)
 	return nil
@@ -179,6 +222,31 @@ func (f ordSet[K]) Values() []int {
 	return out
 }
 
+// the enumerable functions of a TreeSet behind codes (the callbacks see and return codes)
+func (f ordSet[K]) ts() *treeset.Set[K] { return f.s.(*treeset.Set[K]) }
+func (f ordSet[K]) Each(g func(int, int)) {
+	f.ts().Each(func(i int, v K) { g(i, f.c.enc(v)) })
+}
+func (f ordSet[K]) Any(g func(int, int) bool) bool {
+	return f.ts().Any(func(i int, v K) bool { return g(i, f.c.enc(v)) })
+}
+func (f ordSet[K]) All(g func(int, int) bool) bool {
+	return f.ts().All(func(i int, v K) bool { return g(i, f.c.enc(v)) })
+}
+func (f ordSet[K]) Find(g func(int, int) bool) (int, int) {
+	i, v := f.ts().Find(func(i int, v K) bool { return g(i, f.c.enc(v)) })
+	if i < 0 {
+		return i, 0
+	}
+	return i, f.c.enc(v)
+}
+func (f ordSet[K]) Select(g func(int, int) bool) ordSet[K] {
+	return ordSet[K]{f.ts().Select(func(i int, v K) bool { return g(i, f.c.enc(v)) }), f.c}
+}
+func (f ordSet[K]) Map(g func(int, int) int) ordSet[K] {
+	return ordSet[K]{f.ts().Map(func(i int, v K) K { return f.c.dec(g(i, f.c.enc(v))) }), f.c}
+}
+
 type dfltSetWalker interface{ walk() (iter, each []int) }
 
 func (f ordSet[K]) walk() (iter, each []int) {
@@ -207,6 +275,95 @@ func newDefaultSet() sets.Set[int] {
 		return ordSet[Name]{treeset.New[Name](), stringCodec[Name]()}
 	case "dfltU8":
 		return ordSet[uint8]{treeset.New[uint8](), uint8Codec()}
+	case "dfltTot":
+		return ordSet[float64]{treeset.NewWith[float64](totalOrder), zerosCodec()}
 	}
 	return ordSet[float64]{treeset.New[float64](), floatCodec[float64]()}
+}
+
+// zeroList: a list of float64 seen as a list of the codes of zerosCodec (-1, -0, +0, 1, 2).  Sort applies the given
+// comparator on codes to the floats, i.e. the natural comparator on codes is totalOrder on the values.  IndexOf / Contains
+// use Go's == in the library, which cannot tell the two zeros apart: the universes never ask them about a zero.
+type floatListAPI interface {
+	Get(int) (float64, bool)
+	Remove(int)
+	Add(...float64)
+	Contains(...float64) bool
+	Sort(utils.Comparator[float64])
+	Swap(int, int)
+	Insert(int, ...float64)
+	Set(int, float64)
+	Empty() bool
+	Size() int
+	Clear()
+	Values() []float64
+	String() string
+	IndexOf(float64) int
+}
+type zeroList struct {
+	l floatListAPI
+	c *codec[float64]
+}
+
+func (z zeroList) conv(xs []int) []float64 {
+	out := make([]float64, len(xs))
+	for i, x := range xs {
+		out[i] = z.c.dec(x)
+	}
+	return out
+}
+func (z zeroList) Get(i int) (int, bool) {
+	v, ok := z.l.Get(i)
+	if !ok {
+		return 0, false
+	}
+	return z.c.enc(v), true
+}
+func (z zeroList) Remove(i int)            { z.l.Remove(i) }
+func (z zeroList) Add(xs ...int)           { z.l.Add(z.conv(xs)...) }
+func (z zeroList) Contains(xs ...int) bool { return z.l.Contains(z.conv(xs)...) }
+func (z zeroList) Sort(f utils.Comparator[int]) {
+	z.l.Sort(func(a, b float64) int { return f(z.c.enc(a), z.c.enc(b)) })
+}
+func (z zeroList) Swap(i, k int)           { z.l.Swap(i, k) }
+func (z zeroList) Insert(i int, xs ...int) { z.l.Insert(i, z.conv(xs)...) }
+func (z zeroList) Set(i int, x int)        { z.l.Set(i, z.c.dec(x)) }
+func (z zeroList) Empty() bool             { return z.l.Empty() }
+func (z zeroList) Size() int               { return z.l.Size() }
+func (z zeroList) Clear()                  { z.l.Clear() }
+func (z zeroList) String() string          { return z.l.String() }
+func (z zeroList) IndexOf(x int) int       { return z.l.IndexOf(z.c.dec(x)) }
+func (z zeroList) Values() []int {
+	out := []int{}
+	for _, v := range z.l.Values() {
+		out = append(out, z.c.enc(v))
+	}
+	return out
+}
+
+type zeroLinked struct{ zeroList }
+
+func (z zeroLinked) Append(xs ...int) {
+	z.l.(interface{ Append(...float64) }).Append(z.conv(xs)...)
+}
+func (z zeroLinked) Prepend(xs ...int) {
+	z.l.(interface{ Prepend(...float64) }).Prepend(z.conv(xs)...)
+}
+
+func newZeroList(kind string, vs ...int) listX {
+	c := zerosCodec()
+	z := zeroList{c: c}
+	fs := z.conv(vs)
+	switch kind {
+	case "arraylist":
+		z.l = arraylist.New[float64](fs...)
+		return z
+	case "singlylinkedlist":
+		z.l = singlylinkedlist.New[float64](fs...)
+	case "doublylinkedlist":
+		z.l = doublylinkedlist.New[float64](fs...)
+	default:
+		die("unknown list kind %s", kind)
+	}
+	return zeroLinked{z}
 }
